@@ -851,7 +851,10 @@ class Inliner:
         # (no assignment is left behind), provided the body does not rebind them and nothing after the loop reads them
         tnames = [t.id for t in loop.target.elts] if isinstance(loop.target, (ast.Tuple, ast.List)) and all(isinstance(t, ast.Name) for t in loop.target.elts) \
             else ([loop.target.id] if isinstance(loop.target, ast.Name) else None)
-        helper_locals = {n.id for n in ast.walk(fn) if isinstance(n, ast.Name) and isinstance(n.ctx, (ast.Store, ast.Del))} | {a.arg for a in fn.args.args + fn.args.kwonlyargs}
+        # names the (instantiated) helper body or the caller's loop body rebinds cannot stand for a fixed value
+        helper_locals = {n.id for b0 in body for n in ast.walk(b0) if isinstance(n, ast.Name) and isinstance(n.ctx, (ast.Store, ast.Del))} \
+            | {n.id for b0 in loop.body for n in ast.walk(b0) if isinstance(n, ast.Name) and isinstance(n.ctx, (ast.Store, ast.Del))} \
+            | {a.arg for a in fn.args.args + fn.args.kwonlyargs if not (a.arg in mapping and isinstance(mapping[a.arg], ast.Name))}
         direct = False
         if tnames:
             owner = loop
